@@ -768,7 +768,7 @@ func apiCheckFilters(t *testing.T) {
 	docs = append(docs, apiDecode(plainSrc), dn)
 	atoms := []string{`@.a`, `@.b`, `!@.a`, `@.a == 1`, `@.a != 1`, `1 == @.a`, `1 != @.a`, `@.a > 1`, `1 < @.a`, `@.a >= 1`, `1 <= @.a`, `@.a < 2`, `2 > @.a`, `@.a <= 1`, `1 >= @.a`,
 		`@.a == 'x'`, `'x' == @.a`, `@.a != 'x'`, `@.a =~ /x/`, `@.a == true`, `@.a == null`, `@.a == $.k`, `$.k == @.a`, `@.a != $.k`, `@.a == $.zz`, `@.a != $.zz`, `@.zz == $.zz`, `@.zz != $.zz`,
-		`$.k == 1`, `1 == $.k`, `$.k != 1`, `$.k > 0`, `0 < $.k`, `$.k >= 1`, `$.k < 1`, `1 < 2`, `2 < 1`, `1 == 1`, `1 == 2`, `'a' == 1`, `$.zz`, `$.k`, `@.a > $.k`, `$.k < @.a`, `@.a >= $.k`, `@.b == $.k`, `@.a == $.s`, `@.a == $.n`, `@.a == $.t`}
+		`$.k == 1`, `1 == $.k`, `$.k != 1`, `$.k > 0`, `0 < $.k`, `$.k >= 1`, `$.k < 1`, `1 < 2`, `2 < 1`, `1 == 1`, `1 == 2`, `1 != 2`, `1 != 1`, `'a' != 'a'`, `'a' != 'b'`, `2 >= 3`, `'a' == 1`, `$.zz`, `$.k`, `@.a > $.k`, `$.k < @.a`, `@.a >= $.k`, `@.b == $.k`, `@.a == $.s`, `@.a == $.n`, `@.a == $.t`}
 	mirror := map[string]string{`@.a == 1`: `1 == @.a`, `@.a != 1`: `1 != @.a`, `@.a > 1`: `1 < @.a`, `@.a >= 1`: `1 <= @.a`, `@.a < 2`: `2 > @.a`, `@.a <= 1`: `1 >= @.a`, `@.a == 'x'`: `'x' == @.a`,
 		`@.a == $.k`: `$.k == @.a`, `$.k == 1`: `1 == $.k`, `$.k > 0`: `0 < $.k`, `@.a > $.k`: `$.k < @.a`}
 	negation := map[string]string{`@.a == 1`: `@.a != 1`, `1 == @.a`: `1 != @.a`, `@.a == 'x'`: `@.a != 'x'`, `@.a == $.k`: `@.a != $.k`, `@.a == $.zz`: `@.a != $.zz`, `@.zz == $.zz`: `@.zz != $.zz`, `$.k == 1`: `$.k != 1`, `@.a`: `!@.a`}
@@ -859,6 +859,14 @@ func apiCheckFilters(t *testing.T) {
 					}
 					if !apiSetEq(or, wantOr) {
 						t.Errorf("REPRODUCED: doc %d container %s: (%s) || (%s) selects %v, the union is %v", di, cont, a, b, or, wantOr)
+						return
+					}
+					// the same without parentheses (atoms hold no logical operator), and a three-operand chain
+					and2, ok3 := apiSelect(t, a+" && "+b, doc, cont)
+					or2, ok4 := apiSelect(t, a+" || "+b, doc, cont)
+					chain, ok5 := apiSelect(t, a+" && "+b+" || "+a, doc, cont)
+					if (ok3 && !apiSetEq(and2, wantAnd)) || (ok4 && !apiSetEq(or2, wantOr)) || (ok5 && !apiSetEq(chain, sel[a])) {
+						t.Errorf("REPRODUCED: doc %d container %s: %s && %s selects %v (intersection %v), %s || %s selects %v (union %v), %s && %s || %s selects %v (absorption: %v)", di, cont, a, b, and2, wantAnd, a, b, or2, wantOr, a, b, a, chain, sel[a])
 						return
 					}
 				}
